@@ -16,18 +16,22 @@ import (
 // A statement under construction is a tree of `sql.Select` objects; `Select(cols...)`, `GroupBy`, `OrderBy`, `Join`
 // store the slice they are given AS IS and the getters hand the same slice out again. Two translations (or two
 // executions of one plan) can influence each other through such a list only if
-//   (1) a list that OUTLIVES the translation is stored into a plan object   — `plannerSpreadStores`: every call
-//       `f(x...)` (a slice handed over without copying) in the translation packages, with the ORIGIN of x; and
-//   (2) somebody writes IN PLACE into a list he did not allocate             — `plannerInPlaceWrites`: every
-//       `x[i] = v`, `x[i] op= v`, `x[i]++`, `append(x, …)` (writes into the spare capacity of x's array),
-//       `copy(x, …)`, `delete(x, …)`, `clear(x)` whose target was not allocated by the same function.
+//
+//	(1) a list that OUTLIVES the translation is stored into a plan object   — `plannerSpreadStores`: every call
+//	    `f(x...)` (a slice handed over without copying) in the translation packages, with the ORIGIN of x; and
+//	(2) somebody writes IN PLACE into a list he did not allocate             — `plannerInPlaceWrites`: every
+//	    `x[i] = v`, `x[i] op= v`, `x[i]++`, `append(x, …)` (writes into the spare capacity of x's array),
+//	    `copy(x, …)`, `delete(x, …)`, `clear(x)` whose target was not allocated by the same function.
+//
 // Origins (syntactic, per function, joined with `+` when a variable has several):
-//   fresh                      make / composite literal / nil / append to a fresh slice / a function of the package all of
-//                              whose returns are fresh (e.g. patchCol)        — never listed as an in-place site
-//   getter:<M>@own             result of a `.GetXxx()` method of an object this function created (`sql.NewSelect()` chain)
-//   getter:<M>@input           … of an object another planner returned (`X.Process(ctx)`, or a chain ending in it)
-//   getter:<M>@param|elem|other… of a parameter / an element of a slice / anything else
-//   param:<name>  global:<name>  field:<f> (of another object than the receiver)  call:<callee>  other
+//
+//	fresh                      make / composite literal / nil / append to a fresh slice / a function of the package all of
+//	                           whose returns are fresh (e.g. patchCol)        — never listed as an in-place site
+//	getter:<M>@own             result of a `.GetXxx()` method of an object this function created (`sql.NewSelect()` chain)
+//	getter:<M>@input           … of an object another planner returned (`X.Process(ctx)`, or a chain ending in it)
+//	getter:<M>@param|elem|other… of a parameter / an element of a slice / anything else
+//	param:<name>  global:<name>  field:<f> (of another object than the receiver)  call:<callee>  other
+//
 // Writes whose target is a field of the function's OWN receiver are the business of `Gen.PlannerSelfWrites` (inside
 // `Process`) or plan construction (the object is being built) and are not repeated here.
 // Entries: "<pkg>.<Type.method|func>:<kind>:<origin>[ ×n]". Fails closed: an expression shape the origin analysis does
